@@ -74,6 +74,15 @@ func fieldPointerLoad(v ssa.Value) (FieldRef, ssa.Value, bool) {
 	return fr, base, ok
 }
 
+// atomicTarget: the field an atomic operation works on - its argument is the address of the field (&x.f, or x.f for a
+// typed atomic) or the pointer loaded from a pointer-typed field.
+func atomicTarget(arg ssa.Value) (FieldRef, ssa.Value, bool) {
+	if fa, ok := strip(arg, false).(*ssa.FieldAddr); ok {
+		return fieldOf(fa)
+	}
+	return fieldPointerLoad(arg)
+}
+
 func isSyncOrAtomicNamed(t types.Type) bool {
 	if pt, ok := t.(*types.Pointer); ok {
 		t = pt.Elem()
